@@ -72,6 +72,10 @@ def plan(tier):
             ("search", ".", "=", "zz", True)]
     pnav = [(s,) for s in vfull] + [(n, s) for n in navs for s in vfull
                                     if not (n[0] == "trav" and s[0] == "trav")]
+    # keys written with wildcards (abbreviated searches)
+    pnav += [(g,) for g in paths.GLOBS] + [
+        (n, g) for n in navs for g in paths.GLOBS] + [
+        (g, n) for n in navs[:3] for g in paths.GLOBS]
     dnav = corpus.docs(3, (None, 1000, "a", "1000"), ("a", "b", "1000"))
     dnav += corpus.collision_pack()
     for base in (("m", (("a", "x"), ("b", ("l", ("y", 1000))), ("c", "z9"))),
